@@ -370,7 +370,13 @@ def find_children_for_parent(var_collector: Collector, parent_node: ParentNode, 
         except BaseException:
             args = None
         if type(args) is tuple:
-            return process_list_breadth_first(var_collector, parent_node, args)
+            nodes = process_list_breadth_first(var_collector, parent_node, args)
+            # an exception is an object too: what its class keeps on it (a status, a response body) comes after
+            # the arguments
+            attributes = instance_attributes(value)
+            if attributes:
+                nodes += process_dict_breadth_first(parent_node, type_name(variable_type), attributes, correct_names)
+            return nodes
     attributes = instance_attributes(value)
     if attributes is not None:
         return process_dict_breadth_first(parent_node, type_name(variable_type), attributes, correct_names)
